@@ -146,6 +146,7 @@ func extractAll(outdir string) {
 	files["TemplateFacts.lean"] = extractTemplate()
 	files["Operators.lean"] = extractOperators()
 	files["ImportFacts.lean"] = extractImports()
+	files["ValidationFacts.lean"] = extractValidation()
 	sort.Strings(untranslatable)
 	files["Untranslatable.lean"] = genHeader + "namespace Sqlc.Gen\n/-- source shapes the translator could not match; the obligation `untranslatable = []` is part of every check -/\ndef untranslatable : List String := " + lstrs(untranslatable) + "\nend Sqlc.Gen\n"
 	// delete stale files
